@@ -14,6 +14,7 @@ PROGS = [
     {"nodes": [{"k": "step"}], "final_raise_large": True},
     # errors whose MESSAGE is below the limit while the encoded response is above it (escapes, non-ASCII, envelope)
     {"nodes": [{"k": "step"}], "final_raise_large": "escape"},
+    {"nodes": [{"k": "step"}], "final_large": "unicode"},
     {"nodes": [{"k": "step"}, {"k": "wait"}], "final_raise_large": "unicode"},
     {"nodes": [{"k": "step"}], "final_raise_large": "boundary"},
     {"nodes": [{"k": "map", "explicit_cfg": True, "large_items": [0, 1], "branches": [[{"k": "step"}], [{"k": "step"}], [{"k": "step"}]]},
@@ -34,6 +35,11 @@ PROGS = [
     # reported as STARTED items; the rebuilt result must still list them
     {"nodes": [{"k": "map", "maxc": 1, "explicit_cfg": True, "large_items": [0, 1], "cfg": {"min": 2},
                 "branches": [[{"k": "step"}], [{"k": "step"}], [{"k": "step"}], [{"k": "step"}], [{"k": "step"}]]}, {"k": "wait"}, {"k": "step"}]},
+    # the caller's own item_serdes: an oversized call rebuilt from its children must decode every item with it
+    {"nodes": [{"k": "map", "explicit_cfg": True, "item_serdes": "wrap", "medium_items": [0, 1, 2],
+                "branches": [[{"k": "step"}], [{"k": "step"}], [{"k": "step"}]]}, {"k": "wait"}, {"k": "step"}]},
+    {"nodes": [{"k": "par", "explicit_cfg": True, "item_serdes": "wrap", "medium_items": [0, 1, 2],
+                "branches": [[{"k": "step"}], [{"k": "wait", "s": 1}, {"k": "step"}], [{"k": "step"}]]}, {"k": "wait"}, {"k": "step"}]},
     {"nodes": [{"k": "par", "maxc": 1, "explicit_cfg": True, "large_items": [0], "cfg": {"tolc": 0}, "braise": [1], "caught": True,
                 "branches": [[{"k": "step"}], [], [{"k": "step"}], [{"k": "step"}]]}, {"k": "wait"}, {"k": "step"}]},
 ]
